@@ -13,9 +13,8 @@ Check C16_sound_conforms : forall st co r p id,
   validate_outbound p = Ok tt ->
   validate_outbound_internal (Some st) co r (bind_pid p id) = Ok tt ->
   conforms st co r (bind_pid p id) = true.
-Check (eq_refl : known_holes = [RSharedFilterMalformed; RTopicNul; RWillTopic; RSubscriptionIdNotAvailable]).
+Check (eq_refl : known_holes = [RSharedFilterMalformed; RWillTopic; RSubscriptionIdNotAvailable]).
 Check C16_sound_refuted_shared_filter_malformed : accepted_violating st_all w_share_malformed 1 RSharedFilterMalformed.
-Check C16_sound_refuted_topic_nul : accepted_violating st_all w_topic_nul 1 RTopicNul.
 Check C16_sound_refuted_will_topic : accepted_violating st_all w_will_topic 1 RWillTopic.
 Check C16_sound_refuted_subscription_id_not_available :
   exists st, accepted_violating st w_subid_unavailable 1 RSubscriptionIdNotAvailable.
@@ -31,7 +30,7 @@ Check C16_complete_refuted_unsubscribe :
   unsub_overstrict st_nocaps w_unsub_wildcard = true.
 Check C16_filter_grammar : forall f,
   let p := topic_filter_properties f in
-  tf_is_valid p = spec_plain_filter f /\
+  tf_is_valid p = spec_plain_filter f && no_nul f /\
   (tf_is_valid p = true ->
      tf_is_shared p = spec_shared_filter f /\ tf_has_wildcard p = filter_has_wildcard f).
 Check C16_filter_verdict : forall f sh wc nl,
@@ -40,11 +39,10 @@ Check C16_filter_verdict : forall f sh wc nl,
 Check C16_filter_grammar_refuted_share :
   is_valid_topic_filter_internal (STR_SHARE ++ [47; 43; 47; 116]) (Some (true, true)) None = Ok true /\
   spec_filter (STR_SHARE ++ [47; 43; 47; 116]) = false.
-Check C16_topic_grammar : forall t, is_valid_topic t = spec_topic t.
+Check C16_topic_grammar : forall t, is_valid_topic t = spec_topic t && no_nul t.
 Print Assumptions C16_sound.
 Print Assumptions C16_sound_conforms.
 Print Assumptions C16_sound_refuted_shared_filter_malformed.
-Print Assumptions C16_sound_refuted_topic_nul.
 Print Assumptions C16_sound_refuted_will_topic.
 Print Assumptions C16_sound_refuted_subscription_id_not_available.
 Print Assumptions C16_complete.
